@@ -1515,6 +1515,11 @@ struct ssl
         uint32 eap_fast_master_secret : 1;         /* Using eap_fast key derivation */
 # endif
     } extFlags;                            /**< Extension flags */
+# if defined(USE_OCSP_RESPONSE) && defined(USE_SERVER_SIDE_SSL)
+    unsigned char *OCSPResponseBuf; /* This handshake's copy of the response
+                                       in keys: see matrixCopyOCSPResponse */
+    psSize_t OCSPResponseBufLen;
+# endif
 
 # ifdef USE_MATRIX_OPENSSL_LAYER
     int (*verify_callback)(int alert, psX509Cert_t *data);
@@ -2177,6 +2182,11 @@ extern int32 matrixRegisterSession(ssl_t *ssl);
 extern int32 matrixResumeSession(ssl_t *ssl);
 extern int32 matrixClearSession(ssl_t *ssl, int32 remove);
 extern int32 matrixUpdateSession(ssl_t *ssl);
+#  ifdef USE_OCSP_RESPONSE
+extern void matrixSwapOCSPResponse(sslKeys_t *keys, unsigned char **buf,
+                                   psSize_t *len);
+extern int32 matrixCopyOCSPResponse(ssl_t *ssl);
+#  endif
 extern int32 matrixServerSetKeysSNI(ssl_t *ssl, char *host, int32 hostLen);
 extern sslKeys_t *matrixServerGetKeysSNI(ssl_t *ssl, char *host, int32 hostLen);
 
